@@ -262,6 +262,116 @@ Definition c02_statement : Prop :=
           exists k0, forall k, (k0 <= k)%nat -> p_parse p k (body ++ [e]) = Err ParsingErr)).
 
 (* ------------------------------------------------------------------ *)
+(* 5b. at ANY MOMENT of a parser object's life (C02/Session.v: programs of
+   constructor / is_ambiguous() / parse() calls on two objects built from one
+   productions dict).  In the model the methods take the parser as a value and
+   hand it back unchanged; these theorems make that explicit, so that the
+   correspondence run -- which executes the same program on the implementation's
+   objects -- checks that parse() and is_ambiguous() leave parse_table, prods_map
+   and the productions dict as they found them. *)
+Theorem parse_does_not_change_tables : forall p k toks,
+  fst (m_parse p k toks) = p /\
+  p_tables (fst (m_parse p k toks)) = p_tables p /\
+  snd (m_parse p k toks) = p_parse p k toks.
+Proof. intros. repeat split. Qed.
+Print Assumptions parse_does_not_change_tables.
+
+Theorem is_ambiguous_does_not_change_tables : forall p,
+  fst (m_is_ambiguous p) = p /\ snd (m_is_ambiguous p) = is_ambiguous (p_tables p).
+Proof. intros. split; reflexivity. Qed.
+Print Assumptions is_ambiguous_does_not_change_tables.
+
+(* every observation of every program is the observation the same call gives on
+   objects that were just constructed and never used (or there is no such object) *)
+Theorem session_history_independent : forall ug terminals start fuel inputs ops,
+  Forall2 (fun o b => b = BNone \/ b = fresh_obs ug terminals start fuel inputs o)
+          ops (session ug terminals start fuel inputs no_objects ops).
+Proof. exact session_history_independent_l. Qed.
+Print Assumptions session_history_independent.
+
+Theorem is_ambiguous_any_moment : forall ug terminals start fuel inputs ops n w b p,
+  build ug terminals w start = Ok p ->
+  nth_error ops n = Some (OAmb w) ->
+  nth_error (session ug terminals start fuel inputs no_objects ops) n = Some (BAmb b) ->
+  b = is_ambiguous (p_tables p).
+Proof. exact is_ambiguous_any_moment_l. Qed.
+Print Assumptions is_ambiguous_any_moment.
+
+Theorem parse_any_moment : forall ug terminals start fuel inputs ops n w i inp r p,
+  build ug terminals w start = Ok p ->
+  nth_error inputs i = Some inp ->
+  nth_error ops n = Some (OParse w i) ->
+  nth_error (session ug terminals start fuel inputs no_objects ops) n = Some (BParse r) ->
+  r = p_parse p fuel (mk_toks inp).
+Proof. exact parse_any_moment_l. Qed.
+Print Assumptions parse_any_moment.
+
+(* the objects a program leaves behind are objects as the constructor returns them *)
+Theorem objects_stay_as_constructed : forall ug terminals start fuel inputs ops w p,
+  get_obj (final_world ug terminals start fuel inputs no_objects ops) w = Some p ->
+  build ug terminals w start = Ok p.
+Proof. exact final_world_fresh_l. Qed.
+Print Assumptions objects_stay_as_constructed.
+
+(* not vacuous: an object that was built does answer (BNone only without an object) *)
+Theorem built_object_answers : forall ug terminals start fuel inputs ops W w p,
+  get_obj W w = Some p -> build ug terminals w start = Ok p ->
+  forall n o b, nth_error ops n = Some o ->
+    nth_error (session ug terminals start fuel inputs W ops) n = Some b ->
+    match o with
+    | OAmb v => v = w -> b <> BNone
+    | OParse v i => v = w -> (i < length inputs)%nat -> b <> BNone
+    | OBuild _ => b <> BNone
+    end.
+Proof. exact built_answers. Qed.
+Print Assumptions built_object_answers.
+
+(* C02 (a) at any moment: same hypotheses as ll1_reported_partial *)
+Theorem ll1_reported_any_moment : forall ug terminals start fuel inputs ops n w b p,
+  build ug terminals w start = Ok p ->
+  wf_grammar (p_grammar p) (p_terminals p) (p_start p) = true ->
+  p_grammar p = ugram ug ->
+  LL1 (ugram ug) (terminals ++ [END_TOKEN]) start ->
+  nth_error ops n = Some (OAmb w) ->
+  nth_error (session ug terminals start fuel inputs no_objects ops) n = Some (BAmb b) ->
+  b = false.
+Proof.
+  intros ug terminals start fuel inputs ops n w b p HB Hwf Hid HL Ho Hb.
+  rewrite (is_ambiguous_any_moment_l ug terminals start fuel inputs ops n w b p HB Ho Hb).
+  apply (ll1_reported_partial ug terminals w start p); assumption.
+Qed.
+Print Assumptions ll1_reported_any_moment.
+
+(* C02 (b) at any moment: same hypotheses as ll1_complete_partial; whenever, in whatever
+   program, the object parses a sentence (with a large enough budget) it returns its derivation *)
+Theorem ll1_complete_any_moment : forall ug terminals start w p inp d,
+  build ug terminals w start = Ok p ->
+  p_sfxs p = [] ->
+  wf_grammar (p_grammar p) (p_terminals p) (p_start p) = true ->
+  is_ambiguous (p_tables p) = false ->
+  Deriv (p_grammar p) (p_terminals p) start d inp ->
+  exists k0, forall fuel, (k0 <= fuel)%nat ->
+    forall inputs ops n i r,
+      nth_error inputs i = Some inp ->
+      nth_error ops n = Some (OParse w i) ->
+      nth_error (session ug terminals start fuel inputs no_objects ops) n = Some (BParse r) ->
+      exists t, r = Ok t /\ erase t = d.
+Proof.
+  intros ug terminals start w p inp d HB Hs Hwf HA HD.
+  set (body := map (fun nv : sym * list Z => mkTok (fst nv) (snd nv) (0, 0)%Z (0, 0)%Z) inp).
+  set (e := mkTok END_TOKEN [] (0, 0)%Z (0, 0)%Z).
+  assert (Hbody : map tok_pair body = inp).
+  { unfold body. rewrite map_map. unfold tok_pair. cbn [tname tvalue].
+    clear. induction inp as [|[a v] l IH]; cbn [map fst snd]; [reflexivity|]. rewrite IH. reflexivity. }
+  rewrite <- Hbody in HD.
+  destruct (ll1_complete_partial ug terminals w start p body e d HB Hs Hwf HA eq_refl HD) as [k0 K].
+  exists k0. intros fuel Hf inputs ops n i r Hi Ho Hb.
+  rewrite (parse_any_moment_l ug terminals start fuel inputs ops n w i inp r p HB Hi Ho Hb).
+  destruct (K fuel Hf) as [t [P E]]. exists t. split; [|exact E]. exact P.
+Qed.
+Print Assumptions ll1_complete_any_moment.
+
+(* ------------------------------------------------------------------ *)
 (* 6. the hypotheses are satisfiable: the grammar of the repaired defect
       E -> s S | t T ;  S -> X N a ;  T -> N b ;  X -> eps | b q ;  N -> n | eps *)
 Definition xE := [69]%Z. Definition xS := [83]%Z. Definition xT := [84]%Z.
@@ -315,3 +425,19 @@ Proof.
   - vm_compute. reflexivity.
 Qed.
 Print Assumptions ex_sentence.
+
+(* a program on the witness grammar: a rejected text, a sentence, the same texts again, a
+   second object built later from the same dict, the first object used after that --
+   is_ambiguous() answers False every time, the same text gives the same result *)
+Example ex_session : exists t,
+  session ex_ug ex_terms xE 8 [[(xs, xs); (xb, xb); (xq, xq); (xa, xa)]; [(xs, xs); (xb, xb)]] no_objects
+    [OBuild false; OAmb false; OParse false 1; OAmb false; OParse false 0; OAmb false;
+     OParse false 1; OParse false 1; OAmb false;
+     OBuild true; OAmb true; OParse true 1; OAmb true; OParse true 0;
+     OParse false 0; OAmb false; OAmb true; OParse false 7; OAmb true]
+  = [BBuilt None; BAmb false; BParse (Err ParsingErr); BAmb false; BParse (Ok t); BAmb false;
+     BParse (Err ParsingErr); BParse (Err ParsingErr); BAmb false;
+     BBuilt None; BAmb false; BParse (Err ParsingErr); BAmb false; BParse (Ok t);
+     BParse (Ok t); BAmb false; BAmb false; BNone; BAmb false].
+Proof. eexists. vm_compute. reflexivity. Qed.
+Print Assumptions ex_session.
